@@ -138,6 +138,14 @@ pub fn check_float<I: FloatInner>(vt: &'static Vt<I>, ctx: &Ctx) -> DeclReport {
         for n in 0..=16usize {
             attempts.push(Attempt { entry: "Arbitrary".into(), payload: vec![0xFF; n] });
             attempts.push(Attempt { entry: "Arbitrary".into(), payload: vec![0x7F; n] });
+            attempts.push(Attempt { entry: "Arbitrary".into(), payload: vec![0x00; n] });
+            attempts.push(Attempt { entry: "Arbitrary".into(), payload: (0..n).map(|i| (i * 37 + 11) as u8).collect() });
+        }
+        // every one- and two-byte input
+        for a in 0..=255u8 {
+            attempts.push(Attempt { entry: "Arbitrary".into(), payload: vec![a] });
+            attempts.push(Attempt { entry: "Arbitrary".into(), payload: vec![0, 0, 0, a] });
+            attempts.push(Attempt { entry: "Arbitrary".into(), payload: vec![0, 0, 0, 0, 0, 0, 0, a] });
         }
     }
     if vt.default.is_some() {
